@@ -143,7 +143,7 @@ def run(ctx, chk):
         for ef in p.effects:
             if ef['kind'] == 'assert' and ef['msg'].startswith('Overflow'):
                 chk.analysed['call_sites'] += 1
-    chk.floor('C14.M3', 'arithmetic steps evaluated in the interval domain', total_checked, 10)
+    chk.floor('C14.M3', 'arithmetic steps evaluated in the interval domain', total_checked, 4)
 
     # ---- M3b panic-site audit over the call-graph closure of both entry points
     ws = wrappers_model.load(fb, chk, 'C14.M4')
